@@ -11,12 +11,41 @@ def sincePop : List AvgEv → List Int
   | .add v :: rest => if rest.any (· == .pop) then sincePop rest else v :: sincePop rest
   | .pop :: rest => sincePop rest
 
+/-- generalisation of `averager_exact` to an arbitrary start state -/
+theorem averager_run (evs : List AvgEv) (s : AvgSt) :
+    AvgSt.run s evs = if evs.any (· == .pop) then ⟨(sincePop evs).sum, (sincePop evs).length⟩
+      else ⟨s.total + (sincePop evs).sum, s.count + (sincePop evs).length⟩ := by
+  induction evs generalizing s with
+  | nil => simp [AvgSt.run, sincePop]
+  | cons e es ih =>
+    rw [AvgSt.run_cons, ih]
+    cases e with
+    | add v =>
+      have hany : ((AvgEv.add v :: es).any (· == .pop)) = es.any (· == .pop) := by
+        rw [List.any_cons]; simp
+      rw [hany]
+      by_cases hp : es.any (· == .pop) = true
+      · simp only [hp, if_true, sincePop]
+      · simp only [hp, if_false, sincePop, AvgSt.step, List.sum_cons, List.length_cons,
+          Bool.false_eq_true]
+        congr 1
+        · omega
+        · omega
+    | pop =>
+      have hany : ((AvgEv.pop :: es).any (· == .pop)) = true := by
+        rw [List.any_cons]; simp
+      rw [hany]
+      by_cases hp : es.any (· == .pop) = true
+      · simp only [hp, if_true, sincePop]
+      · simp [hp, sincePop, AvgSt.step]
+
 /-- `averager_exact`: after ANY sequence of completed adds and pops (each one atomic, in any
 interleaving of any number of threads and processes), total and count are exactly the sum and
 the number of the adds since the last pop — so the reported mean is total / count -/
 theorem averager_exact (evs : List AvgEv) :
     (AvgSt.run {} evs).total = (sincePop evs).sum ∧ (AvgSt.run {} evs).count = (sincePop evs).length := by
-  sorry
+  rw [averager_run]
+  split <;> simp
 
 /-! ### token bucket: `b.tally` = tokens × seconds at instant `b.last`, time in ticks of 1/count s -/
 
@@ -26,37 +55,114 @@ def Bucket.Ok (b : Bucket) : Prop := 0 ≤ b.tally ∧ b.tally ≤ (b.count : In
 
 theorem init_ok (count seconds : Nat) (now : Int) (hc : 0 < count) (hs : 0 < seconds) :
     (Bucket.init count seconds now).Ok := by
-  sorry
+  refine ⟨?_, Int.le_refl _, hc, hs⟩
+  exact Int.mul_nonneg (Int.natCast_nonneg _) (Int.natCast_nonneg _)
 
 /-- `tally_le_count`: the invariant is kept by every attempt at a later instant -/
 theorem attempt_ok (b : Bucket) (now : Int) (h : b.Ok) (hn : b.last ≤ now) :
     (b.attempt now).1.Ok ∧ b.last ≤ (b.attempt now).1.last ∧ (b.attempt now).1.count = b.count ∧
     (b.attempt now).1.seconds = b.seconds := by
-  sorry
+  obtain ⟨h0, h1, hc, hs⟩ := h
+  have hsec := Bucket.sec_le b.count b.seconds hc
+  rcases Bucket.attempt_cases b now with ⟨ht, he⟩ | ⟨ht1, ht2, he⟩ | ⟨ht1, ht2, he⟩ <;> rw [he]
+  · refine ⟨⟨?_, ?_, hc, hs⟩, hn, rfl, rfl⟩ <;> simp only <;> omega
+  · refine ⟨⟨?_, ?_, hc, hs⟩, hn, rfl, rfl⟩ <;> simp only <;> omega
+  · exact ⟨⟨h0, h1, hc, hs⟩, Int.le_refl _, rfl, rfl⟩
 
 /-- `single_sleep_suffices`: after sleeping the delay it was told, a caller that nobody overtook
 is let through -/
 theorem single_sleep_suffices (b : Bucket) (now d : Int) (h : b.Ok) (hn : b.last ≤ now)
     (hd : (b.attempt now).2 = some d) :
     0 < d ∧ ((b.attempt now).1.attempt (now + d)).2 = none := by
-  sorry
+  have _ := hn  -- not needed: the delay is exact whatever the elapsed time
+  obtain ⟨h0, h1, hc, hs⟩ := h
+  rcases Bucket.attempt_cases b now with ⟨ht, he⟩ | ⟨ht1, ht2, he⟩ | ⟨ht1, ht2, he⟩ <;> rw [he] at hd ⊢
+  · simp at hd
+  · simp at hd
+  · simp only [Option.some.injEq] at hd
+    refine ⟨by omega, ?_⟩
+    rcases Bucket.attempt_cases b (now + d) with ⟨_, he'⟩ | ⟨_, _, he'⟩ | ⟨_, ht2', _⟩
+    · rw [he']
+    · rw [he']
+    · omega
 
 /-- `window_bound`: for every arrival pattern (attempt instants in nondecreasing order, by any
 number of callers sharing the cache), the calls let through in ANY time window of width w ticks
 number at most count + rate·w: in integers, passes·seconds ≤ count·seconds + w.
 Stated for the window that starts at the first pass considered and ends at the last. -/
+theorem window_bound_aux (times : List Int) : ∀ (b : Bucket), b.Ok → times.Pairwise (· ≤ ·) →
+    (∀ t ∈ times, b.last ≤ t) → ∀ (p : Int) (ps : List Int) (l : Int),
+    b.passes times = p :: ps → (p :: ps).getLast? = some l →
+    ((ps.length : Int) + 1) * b.seconds ≤ b.tally + (l - b.last) ∧
+    ((ps.length : Int) + 1) * b.seconds ≤ (b.count : Int) * b.seconds + (l - p) := by
+  induction times with
+  | nil => intro b _ _ _ p ps l hp; simp [Bucket.passes] at hp
+  | cons now rest ih =>
+    intro b hok hsorted hfirst p ps l hp hl
+    have hn : b.last ≤ now := hfirst now (List.mem_cons_self ..)
+    obtain ⟨hok', hlast', hcount', hsec'⟩ := attempt_ok b now hok hn
+    obtain ⟨h0, h1, hc, hs⟩ := hok
+    have hsec := Bucket.sec_le b.count b.seconds hc
+    rw [List.pairwise_cons] at hsorted
+    obtain ⟨hnow_le, hsorted'⟩ := hsorted
+    rw [Bucket.passes_cons] at hp
+    -- the two passing cases share the continuation
+    have pass : ∀ (tl : Int), (b.attempt now).2 = none → (b.attempt now).1.last = now →
+        (b.attempt now).1.tally = tl → tl + b.seconds ≤ b.tally + (now - b.last) →
+        tl + b.seconds ≤ (b.count : Int) * b.seconds →
+        ((ps.length : Int) + 1) * b.seconds ≤ b.tally + (l - b.last) ∧
+        ((ps.length : Int) + 1) * b.seconds ≤ (b.count : Int) * b.seconds + (l - p) := by
+      intro tl hnone hlast htl ht1 ht2
+      have htl0 : 0 ≤ tl := htl ▸ hok'.1
+      rw [if_pos hnone] at hp
+      simp only [List.cons_append, List.nil_append, List.cons.injEq] at hp
+      obtain ⟨hpn, hps⟩ := hp
+      subst hpn
+      cases ps with
+      | nil =>
+        simp only [List.getLast?_singleton, Option.some.injEq] at hl
+        subst hl
+        simp only [List.length_nil, Int.natCast_zero, Int.zero_add, Int.one_mul]
+        omega
+      | cons p2 ps2 =>
+        rw [List.getLast?_cons_cons] at hl
+        have hfirst' : ∀ t ∈ rest, (b.attempt now).1.last ≤ t := by
+          intro t ht; rw [hlast]; exact hnow_le t ht
+        obtain ⟨ih1, _⟩ := ih _ hok' hsorted' hfirst' p2 ps2 l hps hl
+        rw [hsec', htl, hlast] at ih1
+        have hlen : (((p2 :: ps2).length : Nat) : Int) + 1 = ((ps2.length : Int) + 1) + 1 := by
+          simp
+        rw [hlen, Int.add_mul _ 1, Int.one_mul]
+        omega
+    rcases Bucket.attempt_cases b now with ⟨ht, he⟩ | ⟨ht1, ht2, he⟩ | ⟨ht1, ht2, he⟩
+    · exact pass ((b.count : Int) * b.seconds - b.seconds) (by rw [he]) (by rw [he]) (by rw [he])
+        (by omega) (by omega)
+    · exact pass (b.tally + (now - b.last) - b.seconds) (by rw [he]) (by rw [he]) (by rw [he])
+        (by omega) (by omega)
+    · have hb : (b.attempt now).1 = b := by rw [he]
+      have hsome : ¬ (b.attempt now).2 = none := by rw [he]; simp
+      rw [if_neg hsome, hb, List.nil_append] at hp
+      exact ih b ⟨h0, h1, hc, hs⟩ hsorted' (fun t ht => hfirst t (List.mem_cons_of_mem _ ht)) p ps l hp hl
+
 theorem window_bound (b : Bucket) (times : List Int) (h : b.Ok) (hsorted : times.Pairwise (· ≤ ·))
     (hfirst : ∀ t ∈ times, b.last ≤ t) (first last : Int)
     (hf : (b.passes times).head? = some first) (hl : (b.passes times).getLast? = some last) :
     ((b.passes times).length : Int) * b.seconds ≤ (b.count : Int) * b.seconds + (last - first) := by
-  sorry
+  cases hps : b.passes times with
+  | nil => rw [hps] at hf; simp at hf
+  | cons p ps =>
+    rw [hps] at hf hl
+    simp only [List.head?_cons, Option.some.injEq] at hf
+    subst hf
+    have := (window_bound_aux times b h hsorted hfirst p ps last hps hl).2
+    simpa using this
 
 /-- every sub-window too: dropping attempts before some instant leaves a run of the same bucket
 from a later state that still satisfies the invariant (so `window_bound` applies to it) -/
 theorem passes_suffix_ok (b : Bucket) (now : Int) (rest : List Int) (h : b.Ok) (hn : b.last ≤ now) :
     (b.attempt now).1.Ok ∧
-    b.passes (now :: rest) = (if (b.attempt now).2 = none then [now] else []) ++ (b.attempt now).1.passes rest := by
-  sorry
+    b.passes (now :: rest) = (if (b.attempt now).2 = none then [now] else []) ++ (b.attempt now).1.passes rest :=
+  ⟨(attempt_ok b now h hn).1, Bucket.passes_cons b now rest⟩
 
 /-- non-vacuity: a burst of 4, then the steady rate -/
 example : (Bucket.init 4 2 0).passes [0, 0, 0, 0, 0, 1, 2, 2, 3, 4, 8] = [0, 0, 0, 0, 2, 4, 8] := by decide
